@@ -29,16 +29,39 @@ def _names(obs):
     return {bytes(x["n"]).decode("utf8", "replace"): x for x in obs["files"]}
 
 
+_PENDING = []
+
+
 def _judge(run, outdir, spec, tag, events, expect_accept):
+    """queue one judgement of a changed history; _judge_all runs them (a few TLCs side by side) and fails on the first
+    verdict that is not the expected one"""
     p = os.path.join(outdir, "_selftest_%s.ndjson" % tag)
     open(p, "w").write("\n".join(json.dumps(e, separators=(",", ":")) for e in events) + "\n")
-    st = run.trace_states
-    acc, hwm, n, r = run.validate_file(spec, p)
-    run.trace_states = st
-    if acc != expect_accept:
-        raise vf.MachineryError("binding self-test %s: expected the trace specification to %s the history, it did the opposite (stopped at line %d of %d)"
-                                % (tag, "accept" if expect_accept else "reject", hwm, n))
+    _PENDING.append((spec, tag, p, expect_accept))
     return True
+
+
+def _judge_all(run):
+    from concurrent.futures import ThreadPoolExecutor
+    st = run.trace_states
+    jobs, _PENDING[:] = list(_PENDING), []
+
+    def one(j):
+        spec, tag, p, expect = j
+        try:
+            acc, hwm, n, r = run.validate_file(spec, p)
+        except vf.MachineryError as ex:
+            return ex
+        if acc != expect:
+            return vf.MachineryError("binding self-test %s: expected the trace specification to %s the history, it did the opposite (stopped at line %d of %d)"
+                                     % (tag, "accept" if expect else "reject", hwm, n))
+        return None
+    with ThreadPoolExecutor(max_workers=4) as pool:
+        results = list(pool.map(one, jobs))
+    run.trace_states = st
+    for r in results:
+        if r is not None:
+            raise r
 
 
 def property_selftests(run, outdir, meta):
@@ -46,6 +69,9 @@ def property_selftests(run, outdir, meta):
     accepted and each of these single changes of what was observed must be rejected:
       retention: an expired own file reported as still there / a look-alike survivor reported as gone;
       Read: one byte of the returned text changed / the reported offset moved by one / an answer turned into nil;
+      Read names: "no answer" for ../logs<something>/<file> (a sibling directory that exists) turned into the honest
+        window of that file / one byte of an answer given through a symbolic link changed (and: that answer withheld
+        must be ACCEPTED -- the statement does not decide it);
       suppression: a line written exactly one interval after the last line of its id reported as not written."""
     job = [j for j in meta.get("jobs", []) if j["spec"] == "Trace_FileLogger"][0]
     hists = vf.split_histories(open(os.path.join(outdir, job["trace"])).read().splitlines())
@@ -102,6 +128,37 @@ def property_selftests(run, outdir, meta):
                 break
         if "read_answer_turned_nil_rejected" in res:
             break
+    # ---- Read names: a sibling of logs/ whose name begins with "logs"; a symbolic link.  (The unchanged prefixes
+    #      were accepted by the verdict pass; the shortest suitable prefix is taken.)
+    def quiet(e):
+        return all(not x["add"] for x in e["obs"]["files"])
+    sib, lnk = None, None
+    for ev in of("read"):
+        for i, e in enumerate(ev):
+            if e["ev"] != "Read" or not quiet(e):
+                continue
+            f = bytes(e["file"]).decode("utf8", "replace")
+            if e["res"]["nil"] and e["len"] >= 1 and f.startswith("../logs") and (sib is None or i < sib[0]):
+                there = [x for x in e["obs"]["out"] if f == "../" + bytes(x["n"]).decode("utf8", "replace") and x["data"]]
+                if there:
+                    sib = (i, ev, f, there[0]["data"][:e["len"]])
+            if not e["res"]["nil"] and f.startswith("ln-file") and len(e["res"]["text"]) >= 1 and (lnk is None or i < lnk[0]):
+                lnk = (i, ev, f)
+    if sib:
+        i, ev, f, data = sib
+        a = copy.deepcopy(ev[:i + 1])
+        a[-1]["res"] = {"nil": False, "before": 0, "next": -1, "text": data}
+        res["answer_from_sibling_directory_of_logs_rejected"] = _judge(run, outdir, spec, "sibling_served", a, False)
+        res["res_sibling"] = f
+    if lnk:
+        i, ev, f = lnk
+        a = copy.deepcopy(ev[:i + 1])
+        a[-1]["res"]["text"][0] = (a[-1]["res"]["text"][0] + 1) % 256
+        res["answer_through_symbolic_link_byte_changed_rejected"] = _judge(run, outdir, spec, "link_text", a, False)
+        b = copy.deepcopy(ev[:i + 1])
+        b[-1]["res"] = {"nil": True}
+        res["answer_through_symbolic_link_withheld_accepted"] = _judge(run, outdir, spec, "link_nil", b, True)
+        res["res_link"] = f
     # ---- suppression
     for ev in of("supp"):
         for i, e in enumerate(ev):
@@ -122,8 +179,11 @@ def property_selftests(run, outdir, meta):
             break
         if "line_one_interval_after_its_id_reported_suppressed_rejected" in res:
             break
+    _judge_all(run)
     need = ["expired_file_reported_kept_rejected", "survivor_reported_deleted_rejected", "read_text_byte_changed_rejected",
-            "read_offset_moved_rejected", "read_answer_turned_nil_rejected", "line_one_interval_after_its_id_reported_suppressed_rejected"]
+            "read_offset_moved_rejected", "read_answer_turned_nil_rejected", "line_one_interval_after_its_id_reported_suppressed_rejected",
+            "answer_from_sibling_directory_of_logs_rejected", "answer_through_symbolic_link_byte_changed_rejected",
+            "answer_through_symbolic_link_withheld_accepted"]
     missing = [k for k in need if not res.get(k)]
     if missing:
         raise vf.MachineryError("property self-tests found no suitable history for: %s" % missing)
@@ -159,7 +219,8 @@ def body(run):
         "suppression is judged as permitted/forbidden (a line may be suppressed only if a line with the same id was emitted less than the interval ago on the virtual clock); the size and eviction of the 1000-entry id cache are not constrained",
         "when retention runs is not part of the property: it must have run once more than 60 s of virtual time have passed since it last ran and a cycle runs; it may run earlier",
         "names the statement does not decide may or may not be removed by retention: own prefix and '-<8 digits>.' before the last dot with year 0000 or an extension other than .log",
-        "Read: whether an answer is given is pinned for plain file names of logs/; for other names (slashes, dot segments) the answer may be nil or come from the file the name lexically resolves to inside logs/; where the window lies is judged by ReadHonest only (contiguous slice at the reported offset, at most the requested length); `next` is not judged",
+        "Read: whether an answer is given is pinned for plain file names of logs/ that are no symbolic links; for other names (slashes, dot segments) the answer may be nil or come from the file the name lexically resolves to inside logs/ (resolution as a path join does it); a name that lexically leaves logs/ must get no answer, whatever exists there; where the window lies is judged by ReadHonest only (contiguous slice at the reported offset, at most the requested length); `next` is not judged",
+        "Read through symbolic links of logs/ (a linked file, a path through a linked directory): the statement speaks of paths, so whether such a name is served is left open; an answer must be an honest window of the file the path really leads to (the harness records where each link leads with filepath.EvalSymlinks). What lies above <home> is unknown to the specification: names that leave <home> and come back, the absolute path of a file inside logs/ and '..' after a linked segment are not generated",
         "concurrent bursts: the order of calls is the order of their lines in the files (each line carries goroutine and sequence number); calls that left no line are placed before the goroutine's next visible line; no wall-clock ordering across goroutines; a burst history that is rejected but does not reproduce is a machinery failure, not a violation",
-        "files of <home> outside logs/ are listed after every action and must never change; symbolic links are not generated",
+        "every regular file of the temporary tree outside <home>/logs (in <home>, in its sub-directories named like logs/, beside <home>) is listed after every action and must never change; symbolic links are generated inside logs/ only, never with the name of an own log file, and their targets never change (a link seen to lead elsewhere than before is a machinery failure)",
     ]
